@@ -127,6 +127,7 @@ func cmdCheck(args []string) int {
 }
 
 type CheckRun struct {
+	genErr         map[string]string
 	P              *Prog
 	Prop           string
 	Tier           string
@@ -222,9 +223,10 @@ func (r *CheckRun) Run() (code int) {
 		quickMs, slowMs = 10000, 120000
 	}
 	type fres struct {
-		vc   *VC
-		obls []*Obligation
-		err  error
+		vc        *VC
+		obls      []*Obligation
+		err       error
+		genFailed bool
 	}
 	results := make([]fres, len(keys))
 	// generation and solving of the units run concurrently (registries are mutex-guarded)
@@ -276,6 +278,7 @@ func (r *CheckRun) Run() (code int) {
 				return vc.Generate()
 			}()
 			tGen := time.Since(t0u)
+			genFailed := err != nil
 			if err == nil && vc.contract != nil {
 				// vacuity guard: every checked postcondition of the contract must have produced an obligation
 				have := map[string]bool{}
@@ -302,13 +305,31 @@ func (r *CheckRun) Run() (code int) {
 			if r.Verbose {
 				fmt.Fprintf(os.Stderr, "unit %s: generation %.1fs (%d feasibility checks), solving %.1fs, %d obligations\n", k, tGen.Seconds(), vc.nfeas, (time.Since(t0u) - tGen).Seconds(), len(vc.obls))
 			}
-			results[i] = fres{vc: vc, obls: vc.obls, err: err}
+			results[i] = fres{vc: vc, obls: vc.obls, err: err, genFailed: genFailed}
 		}(i, k)
 	}
 	wg.Wait()
 	engineErr := false
+	r.genErr = map[string]string{}
+	baseline0 := map[string][]string{}
+	loadJSON(filepath.Join(r.Verif, "baseline", "obligations.json"), &baseline0)
 	for i := range results {
 		if results[i].err != nil {
+			// a contract that can no longer be evaluated on the function it is attached to (a variable it names
+			// is gone, a loop it annotates is gone) fails the obligations that were proved for that function
+			if results[i].genFailed && results[i].vc != nil {
+				proved := false
+				for _, n := range baseline0[r.Prop] {
+					if strings.HasPrefix(n, results[i].vc.key+" ") {
+						proved = true
+					}
+				}
+				if proved {
+					r.genErr[results[i].vc.key] = results[i].err.Error()
+					results[i].obls = nil
+					continue
+				}
+			}
 			fmt.Fprintln(os.Stderr, "ENGINE-ERROR:", results[i].err)
 			engineErr = true
 		}
@@ -522,6 +543,22 @@ func (r *CheckRun) report(aggs []*AggObl, freports []FuncReport, vacuity []strin
 				}
 			}
 			if kfOpen {
+				continue
+			}
+			inapplicable := ""
+			for fk, msg := range r.genErr {
+				if strings.HasPrefix(n, fk+" ") {
+					inapplicable = msg
+				}
+			}
+			if inapplicable != "" {
+				dir := filepath.Join(r.Verif, "replays")
+				os.MkdirAll(dir, 0o755)
+				path := filepath.Join(dir, fmt.Sprintf("%s_%s.txt", r.Prop, sanitize(n)))
+				os.WriteFile(path, []byte(fmt.Sprintf("property: %s\nobligation: %s\nstatus: failed\nreason: the contract that carried this obligation can no longer be evaluated on the function: %s\n", r.Prop, n, inapplicable)), 0o644)
+				lines = append(lines, fmt.Sprintf("VIOLATION property=%s replay=%s no-failing-input-found", r.Prop, path))
+				violations++
+				exit = 1
 				continue
 			}
 			lines = append(lines, fmt.Sprintf("UNDECIDED property=%s obligation=%q is in the baseline but was not generated on this tree", r.Prop, n))
